@@ -85,6 +85,12 @@ type wire struct {
 	AuxPowHex string `json:"auxpow"`
 	BlockHash string `json:"block_hash"`
 	ChainID   int    `json:"chain_id"`
+	// object-reuse cases: the value is first decoded from FirstAuxPow and checked against
+	// FirstBlockHash, then turned into AuxPowHex by Mode (in-place | deserialize | check-twice)
+	Mode           string `json:"mode,omitempty"`
+	FirstAuxPow    string `json:"first_auxpow,omitempty"`
+	FirstBlockHash string `json:"first_block_hash,omitempty"`
+	FirstChainID   int    `json:"first_chain_id,omitempty"`
 }
 
 // ---- independent primitives --------------------------------------------------------------------
@@ -287,6 +293,7 @@ type counters struct {
 	evals, accepted, rejected, panics, stricter int64
 	misalignedAccepted                          int64
 	nDistinct, nDeep                            int64
+	reuseCases, reuseStricter                   int64
 	classes                                     map[string][2]int64 // class -> [accepted, rejected]
 	reasons                                     map[string]int64    // oracle rejection reason -> count
 	panicSites                                  map[string]int64
@@ -691,6 +698,8 @@ func mergeCounters(dst, src *counters) {
 	dst.panics += src.panics
 	dst.stricter += src.stricter
 	dst.misalignedAccepted += src.misalignedAccepted
+	dst.reuseCases += src.reuseCases
+	dst.reuseStricter += src.reuseStricter
 	for k, v := range src.classes {
 		d := dst.classes[k]
 		d[0] += v[0]
@@ -731,6 +740,22 @@ func main() {
 		}
 		var h [32]byte
 		copy(h[:], bh)
+		if a.Mode != "" {
+			fr, e1 := hex.DecodeString(a.FirstAuxPow)
+			fh, e2 := hex.DecodeString(a.FirstBlockHash)
+			if e1 != nil || e2 != nil || len(fh) != 32 {
+				evid.Fatalf("replay: bad artefact")
+			}
+			var f32 [32]byte
+			copy(f32[:], fh)
+			reused, fresh, err := reuseOnce(fr, f32, a.FirstChainID, a.Mode, raw, h, a.ChainID)
+			fmt.Printf("replaying %s\n class=%s mode=%s\n value decoded from first proof, checked against %s, then turned into the second proof\n AuxPow.Check(blockhash=%s) on the reused value: accepted=%v; on a fresh value decoded from its re-serialisation: accepted=%v (err=%v)\n", sig, a.Class, a.Mode, a.FirstBlockHash, a.BlockHash, reused, fresh, err)
+			if reused && !fresh {
+				r.Violate(sig, "reproduced: the reused value is accepted, the fresh one is not", a)
+			}
+			os.RemoveAll(scr)
+			r.Finish(evid.Coverage{})
+		}
 		acc, site, derr := runWire(raw, h, a.ChainID)
 		fmt.Printf("replaying %s\n class=%s\n AuxPow.Deserialize error: %v\n AuxPow.Check(blockhash=%s, chainID=%d) accepted=%v panic=%q\n", sig, a.Class, derr, a.BlockHash, a.ChainID, acc, site)
 		var ap auxpow.AuxPow
@@ -796,6 +821,7 @@ func main() {
 	par.Go(len(cfgs), func(i int) {
 		w := &worker{ct: newCounters()}
 		w.explore(cfgs[i], fulls[i])
+		w.reuse(cfgs[i])
 		pends[i] = w.pend
 		mu.Lock()
 		mergeCounters(total, w.ct)
@@ -836,9 +862,9 @@ func main() {
 		"fields of the parent header other than its merkle root and the AuxPow.ParentHash field are not part of the commitment checked by AuxPow.Check (the parent header is bound by CheckProofOfWork, C09) — their mutation is expected to be neutral")
 	os.RemoveAll(scr)
 	r.Finish(evid.Coverage{
-		"evaluations":                total.evals,
+		"evaluations":                total.evals + total.reuseCases,
 		"distinct_nontrivial":        nontrivial,
-		"rule":                       fmt.Sprintf("%d valid seeds (aux branch length 0..5 x nonces x chain ids x parent branch shapes x script prefix/suffix) built like GenerateAuxPow builds them; per seed: every bit of the block hash, chain id / aux index / parent index deviations, every byte of every branch element and of the parent merkle root x 16 xor values (on the heavy seeds: no script prefix, main chain id; x 2 values on the others), branch length changes, coinbase field changes with and without re-commitment, every script byte x 16 xor values with re-commitment, size and nonce alphabets, every truncation, two-marker / non-adjacent / marker-less / wrong-root layouts; on the placement seeds the commitment at every nibble offset 0..26 of the hex script in 3-4 tail layouts. Every proof is serialized and deserialized by the repository before AuxPow.Check. Duplicates (same wire bytes, hash, chain id) are evaluated once. distinct_nontrivial = distinct proofs that pass the parent-merkle rule and so reach the marker/root/size/slot logic", len(cfgs)),
+		"rule":                       fmt.Sprintf("%d valid seeds (aux branch length 0..5 x nonces x chain ids x parent branch shapes x script prefix/suffix) built like GenerateAuxPow builds them; per seed: every bit of the block hash, chain id / aux index / parent index deviations, every byte of every branch element and of the parent merkle root x 16 xor values (on the heavy seeds: no script prefix, main chain id; x 2 values on the others), branch length changes, coinbase field changes with and without re-commitment, every script byte x 16 xor values with re-commitment, size and nonce alphabets, every truncation, two-marker / non-adjacent / marker-less / wrong-root layouts; on the placement seeds the commitment at every nibble offset 0..26 of the hex script in 3-4 tail layouts. Every proof is serialized and deserialized by the repository before AuxPow.Check. Object reuse: per seed, an AuxPow value is decoded and checked, then turned into each of ~18 other proofs (other block, switched script, changed coinbase with/without re-commitment, changed roots/branches) field by field in place or by Deserialize into the same value, in both orders, and checked again; the verdict must equal that of a fresh value decoded from its re-serialisation and the byte-level statement. Duplicates (same wire bytes, hash, chain id) are evaluated once. distinct_nontrivial = distinct proofs that pass the parent-merkle rule and so reach the marker/root/size/slot logic", len(cfgs)),
 		"exhaustive":                 true,
 		"seeds":                      len(cfgs),
 		"accepted":                   total.accepted,
@@ -850,6 +876,8 @@ func main() {
 		"nibble_misaligned_accepted": total.misalignedAccepted,
 		"panics":                     total.panics,
 		"panics_by_site":             total.panicSites,
-		"samples":                    samples,
+		"object_reuse_cases":         total.reuseCases,
+		"object_reuse_history_dependent_rejections": total.reuseStricter,
+		"samples": samples,
 	})
 }
